@@ -237,7 +237,8 @@ class MLAllowlist(Analysis):
 
 class FicklingMLUnpickler(pickle.Unpickler):
     def __init__(self, *args, also_allow: List[str] = None, **kwargs):
-        self.allowlist = dict(ML_ALLOWLIST)
+        # copy the per-module tables too: the user's additions below must not end up in ML_ALLOWLIST itself
+        self.allowlist = {module: dict(names) for module, names in ML_ALLOWLIST.items()}
         super().__init__(*args, **kwargs)
         # Add additional allowed imports
         if also_allow:
